@@ -32,7 +32,7 @@ def gen_records(rng, big=False):
     for k in range(n):
         sz = rng.choice([0, 1, 14, 60, 64, 70, rng.randint(0, 70)])
         if big and rng.random() < 0.2:
-            sz = rng.choice([4095, 4096, 4097, 8191, 8192, 8193, 65535])
+            sz = rng.choice([4095, 4096, 4097, 8191, 8192, 8193, 65535, 65536, 70000])
         data = pkt.rand_bytes(rng, sz) if sz < 200 else bytes((i * 31 + k) & 0xFF for i in range(sz))
         # the wire length is whatever the file says: usually >= the captured length, but 0 or less than it occur in the wild
         wire = rng.choice([None, None, sz + rng.randint(0, 2000), 0, max(0, sz - rng.randint(1, 10)), (1 << 32) - 1])
@@ -102,6 +102,7 @@ def run(chk):
     try:
         cases = []
         meta = {}
+        reread = []
         n_files = 400 if quick else 12000
         for i in range(n_files):
             recs = gen_records(rng, big=(i % 7 == 0))
@@ -237,6 +238,9 @@ def run(chk):
                     chk.violation("write-back|returned-length", "pcap_write returned %s" % [show(x) for x in wrote[:5]], {})
                 elif h2 is None or h2["magic"] not in (pkt.MAGIC_US, pkt.MAGIC_NS):
                     chk.violation("write-back|header", "the written file has no valid global header", {})
+                else:
+                    # second pass: the interpreter itself reads the file it wrote
+                    reread.append((cid, outp, rc, max([len(x[2]) for x in recs] + [0])))
             elif cls == "truncated":
                 _, recs, ops, cut, data = m
                 full = pkt.pcap_file(recs)
@@ -271,6 +275,20 @@ def run(chk):
                     continue
                 rc = [rec_canon(x) for x in recs[:good]]
                 judge_partial(chk, cls + "|" + kind, rc, ops, obs, kind)
+        rcases = [Case("rr" + cid, HELPERS + "let __o = []; let g = pcap_open(%s); if is_error(g) { push(__o, \"OPEN-ERROR\"); } else { push(__o, da(pcap_read_all(g))); }" % lit(outp),
+                       {"globals": "__o", "steps": 3000000}) for cid, outp, rc, mx in reread]
+        rres = core.run_cases(rcases, timeout=600)
+        for cid, outp, rc, mx in reread:
+            r = rres.get("rr" + cid)
+            if r is None or r.get("outcome") != "ok":
+                chk.inconc("re-read case: %s" % ((r or {}).get("outcome")))
+                continue
+            chk.observed(("reread", min(len(rc), 6), mx > 65535))
+            obs = list(canon_dump(r["globals"]["__o"])[1])
+            if obs != [("a", tuple(rc))]:
+                chk.violation("write-back|reread|%s" % ("record-above-65535" if mx > 65535 else "records-up-to-65535"),
+                              "the file written with pcap_write (%d records, longest %d bytes) reads back as %s instead of the same %d records" % (
+                                  len(rc), mx, core.short(show(obs[0]) if obs else "nothing", 120), len(rc)), {"n_records": len(rc), "longest": mx})
         # ---- the same truncations arriving as a stream on stdin (pcap_stream, and filter mode), through the real binary
         script_next = os.path.join(work, "sn.p2")
         script_all = os.path.join(work, "sa.p2")
